@@ -2,6 +2,7 @@ CONSTANTS
   RATE = 8
   WIDTH = 12
   Mutants = {{}}
+  EncodeMutant = "none"
   ConfigSet = "lattice"
 INIT Init
 NEXT Next
